@@ -47,7 +47,7 @@ type callerSpec struct {
 	IOChain bool `json:"ioChain,omitempty"`
 	// DoRecv (DoNotation callers): the receiver the method is called on - 0 a zero CorDef, 1 the target
 	// coroutine itself (possibly running), 2 a helper coroutine that is started and running for the whole
-	// scenario. DoNotation gives its effect a coroutine of its own whatever it is called on
+	// scenario, 3 a coroutine that has finished. DoNotation gives its effect a coroutine of its own whatever it is called on
 	DoRecv int `json:"doRecv"`
 	Gap    int `json:"gap"` // yields between requests
 }
@@ -102,7 +102,7 @@ func genScenario(t *rapid.T) scenario {
 		remaining -= k
 		c := callerSpec{K: k, Kind: rapid.SampledFrom([]int{kindCor, kindCor, kindDoNotation, kindNewAndStart, kindBare}).Draw(t, "kind"), IOAt: -1, Gap: rapid.IntRange(0, 3).Draw(t, "gap")}
 		if c.Kind == kindDoNotation {
-			c.DoRecv = rapid.IntRange(0, 2).Draw(t, "doRecv")
+			c.DoRecv = rapid.IntRange(0, 3).Draw(t, "doRecv")
 		}
 		if rapid.IntRange(0, 3).Draw(t, "io") == 0 {
 			c.IOAt = rapid.IntRange(0, k-1).Draw(t, "ioAt")
@@ -171,6 +171,11 @@ func runScenario(s scenario) result {
 	defer close(runnerEnd)
 	runner := fpgo.CorNewGenerics[int](func() { <-runnerEnd })
 	runner.Start()
+	// a coroutine that has run to completion: DoNotation gives its effect a coroutine of its own whatever the
+	// state of the handle it is called on
+	finished := fpgo.CorNewGenerics[int](func() {})
+	finished.Start()
+	vlib.WaitUntil(vlib.StallBudget(), finished.IsDone)
 	hClosed := fpgo.Handler.New()
 	hClosed.Close()
 	defer h.Close()
@@ -249,6 +254,14 @@ func runScenario(s scenario) result {
 					io = fpgo.MonadIOJustGenerics(0).FlatMap(func(int) *fpgo.MonadIODef[int] { return inner })
 				}
 				ioResults[i] = [2]int{want, self.YieldFromIO(io)}
+				if spec.IOChain {
+					// the same composed IO polled twice: every YieldFromIO evaluates it anew
+					n := 0
+					poll := fpgo.MonadIONewGenerics(func() int { n++; return n }).FlatMap(func(v int) *fpgo.MonadIODef[int] { return fpgo.MonadIOJustGenerics(10 * v) })
+					if a, b := self.YieldFromIO(poll), self.YieldFromIO(poll); a != 10 || b != 20 {
+						fail("C14/yieldFromIO", "caller %d: two YieldFromIO calls on one composed IO whose source counts its evaluations returned %d and %d, the IO's values are 10 and 20", i, a, b)
+					}
+				}
 				if spec.IOHandler && !spec.IOChain && effG != hID {
 					fail("C14/yieldFromIO-handler", "caller %d: the effect of a MonadIO observed on a handler did not run on that handler's goroutine", i)
 				}
@@ -393,6 +406,8 @@ func runScenario(s scenario) result {
 					d = target
 				case 2:
 					d = runner
+				case 3:
+					d = finished
 				}
 				want := -12345
 				var block *fpgo.CorDef[int]
